@@ -222,7 +222,7 @@ def _featurizer_unit(name, fes, params, features, states=(), add_intercept=True,
                     some = z3.Or(*[z3.And(w >= 0, w < root.n, z3.substitute(rep_in_state, (u, w))) for w in ws]) if ws else z3.BoolVal(False)
                     h.ensures(f"{name}.a_copy_exists_only_for_a_state_with_a_reporting_unit", some)
                     want = z3.If(cols["postal_code"] == z3.StringVal(st), cols[f_], z3.RealVal(0))
-                    h.ensures(f"{name}.copy_holds_the_feature_inside_the_state_and_zero_outside", z3.Implies(facts, z3.And(real(fit.col(name).t) == want, real(hold.col(name).t) == want)))
+                    h.ensures(f"{name}.copy_holds_the_feature_inside_the_state_and_zero_outside", z3.Implies(facts, z3.And(real(fit.col(name).t) == want, real(hold.col(name).t) == want)), replay=h.default_replay)
         if add_intercept and not states:
             h.ensures("intercept.is_one_everywhere", z3.Implies(facts, z3.And(real(fit.col("intercept").t) == 1, real(hold.col("intercept").t) == 1)))
 
